@@ -129,7 +129,7 @@ def r17_2_5(ctx) -> None:
             pass
         # (3): a bare pull counts only together with a tail test on every path from the bounded call to each return
         for pt in pulls_need_tail:
-            if tail_tests and all(cfg.must_pass(B, r0, tail_tests) for r0 in cfg.returns() if r0 in cfg.reachable(B)):
+            if tail_tests and all(cfg.must_pass(B, r0, tail_tests) for r0 in cfg.returns() if r0 in cfg.reachable(B)) and cfg.must_pass(B, pt, tail_tests):
                 gates.append(pt)
         for r in cfg.returns():
             v = r.ast.value  # type: ignore[union-attr]
@@ -198,7 +198,8 @@ def _gate_kind(eng, fn: FunctionInfo, e: ast.AST, objtxt: str, first_call: ast.C
     if isinstance(e, ast.BoolOp) and isinstance(e.op, ast.Or):
         kinds = [_gate_kind(eng, fn, v, objtxt, first_call, depth) for v in e.values]
         kinds += ["not-eof" for v in e.values if isinstance(v, ast.UnaryOp) and isinstance(v.op, ast.Not) and _gate_kind(eng, fn, v.operand, objtxt, first_call, depth) == "eof"]
-        if "not-eof" in kinds or "pull-tail" in kinds or "or-complete" in kinds or ("tail" in kinds and "pull" in kinds):
+        # (a further pull - even of nothing - resets `unconsumed_tail`: the tail counts only when it is read BEFORE the pull)
+        if "not-eof" in kinds or "pull-tail" in kinds or "or-complete" in kinds or ("tail" in kinds and "pull" in kinds and kinds.index("tail") < kinds.index("pull")):
             return "or-complete"
         return None
     if isinstance(e, ast.UnaryOp) and isinstance(e.op, ast.Not) and _gate_kind(eng, fn, e.operand, objtxt, first_call, depth) == "eof":
